@@ -46,7 +46,7 @@ pub fn reset() {
 /// part of the `BufMut` / `Buf` API (put_slice, the `io::Write` adaptor, chunk_mut/advance_mut
 /// with remaining_mut checks; copy_to_bytes, chunk/advance, the `io::Read` adaptor, copy_to_slice).
 pub fn draw_styles(sim: &simcore::Sim) {
-    let s = (sim.draw(4) as u8, sim.draw(4) as u8);
+    let s = (sim.draw(5) as u8, sim.draw(4) as u8);
     STYLE.with(|x| x.set(s));
 }
 
@@ -111,6 +111,12 @@ impl Encoder for RawEncoder {
                 }
             }
             3 => dst.put_slice(&item.0), // no reserve: a BufMut grows on demand
+            4 => {
+                // `BufMut::put` of a multi-chunk source (a rope of two halves)
+                let mid = item.0.len() / 2;
+                let (a, b) = (item.0.slice(..mid), item.0.slice(mid..));
+                dst.put(a.chain(b));
+            }
             _ => {
                 dst.reserve(item.0.len());
                 dst.put_slice(&item.0);
